@@ -1,103 +1,18 @@
 import VoluteModel.Lemmas.CanonMain
+import VoluteModel.Lemmas.SeqCore
+import VoluteModel.Lemmas.SeqGen8
 
 /-!
-# Facts about the swap / flip sequences, kernel-evaluated on the sequences in use
+# Facts about the swap / flip sequences in use
 
-For n <= 6 the sequences are the tables `SWAPS` / `FLIPS` regenerated from /repo/src (T1);
-for n = 7 they are the model of the runtime generators (tied to the Rust generators by the
-`verif_canon_sequences` hook in the correspondence run).
+For n <= 6 the sequences are the tables `SWAPS` / `FLIPS` regenerated from /repo/src (T1) and the
+Boolean checks of `SeqCore` are evaluated on them here; for n = 7, 8 they are the model of the
+runtime generators, evaluated in `SeqCore` (tied to the Rust generators by the
+`verif_canon_sequences` / `verif_last_sequences` hooks in the correspondence run).
 -/
 
 namespace VoluteModel
 open Gen
-
-/-- every flip position is valid, the Gray walk is closed and not empty -/
-def flipFactsB (n : Nat) (flips : List Nat) : Bool :=
-  flips.all (fun f => f < n) && (xorFlips flips == 0) && !flips.isEmpty
-
-/-- a left fold that looks at every intermediate state (so that kernel evaluation is strict);
-    it is the plain fold -/
-def foldForce {σ α : Type} (f : σ → α → σ) (obs : σ → Bool) : σ → List α → σ
-  | s, [] => s
-  | s, x :: xs => if obs (f s x) then foldForce f obs (f s x) xs else foldForce f obs (f s x) xs
-
-theorem foldForce_eq {σ α : Type} (f : σ → α → σ) (obs : σ → Bool) (s : σ) (xs : List α) :
-    foldForce f obs s xs = xs.foldl f s := by
-  induction xs generalizing s with
-  | nil => rfl
-  | cons x xs ih => simp only [foldForce, ite_self, List.foldl_cons, ih]
-
-/-- adjacent swap on a list (kernel-friendly twin of `Array.swapIfInBounds s (s+1)`) -/
-def swapAdjL : Nat → List Nat → List Nat
-  | 0, a :: b :: r => b :: a :: r
-  | s + 1, a :: r => a :: swapAdjL s r
-  | _, l => l
-
-theorem swapAdjL_length (s : Nat) (l : List Nat) : (swapAdjL s l).length = l.length := by
-  induction s generalizing l with
-  | zero =>
-    match l with
-    | [] => rfl
-    | [_] => rfl
-    | _ :: _ :: _ => rfl
-  | succ s ih =>
-    match l with
-    | [] => rfl
-    | a :: r => simp [swapAdjL, ih]
-
-theorem swapAdjL_getElem? (s : Nat) (l : List Nat) (h : s + 1 < l.length) (k : Nat) :
-    (swapAdjL s l)[k]? = if s + 1 = k then l[s]? else if s = k then l[s + 1]? else l[k]? := by
-  induction s generalizing l k with
-  | zero =>
-    match l, h with
-    | a :: b :: r, _ =>
-      simp only [swapAdjL]
-      match k with
-      | 0 => simp
-      | 1 => simp
-      | k + 2 => simp
-  | succ s ih =>
-    match l, h with
-    | a :: r, h =>
-      simp only [swapAdjL]
-      match k with
-      | 0 => simp
-      | k + 1 =>
-        simp only [List.getElem?_cons_succ]
-        rw [ih r (by simpa using h) k]
-        have e1 : (s + 1 + 1 = k + 1) ↔ (s + 1 = k) := by omega
-        have e2 : (s + 1 = k + 1) ↔ (s = k) := by omega
-        simp only [e1, e2]
-
-theorem swapAdjL_short (s : Nat) (l : List Nat) (h : ¬ s + 1 < l.length) : swapAdjL s l = l := by
-  induction s generalizing l with
-  | zero =>
-    match l, h with
-    | [], _ => rfl
-    | [_], _ => rfl
-    | _ :: _ :: _, h => simp at h
-  | succ s ih =>
-    match l, h with
-    | [], _ => rfl
-    | a :: r, h => simp only [swapAdjL]; rw [ih r (by simpa using h)]
-
-theorem swapAdjL_eq (p : Array Nat) (s : Nat) : (p.swapIfInBounds s (s + 1)).toList = swapAdjL s p.toList := by
-  by_cases h : s + 1 < p.size
-  · apply List.ext_getElem?
-    intro k
-    rw [swapAdjL_getElem? s p.toList (by simpa using h) k, Array.getElem?_toList, Array.swapIfInBounds_def]
-    have h1 : s < p.size := by omega
-    simp only [h1, h, dite_true]
-    rw [Array.getElem?_swap, Array.getElem?_toList, Array.getElem?_toList, Array.getElem?_toList]
-    simp [h1, h]
-  · rw [swapAdjL_short s p.toList (by simpa using h), Array.swapIfInBounds_def]
-    by_cases h1 : s < p.size <;> simp [h1, h]
-
-def obsL (p : List Nat) : Bool := p.foldl (· + ·) 0 == 0
-
-/-- the permutation after a list of adjacent swaps -/
-def permAfterL (n : Nat) (swaps : List Nat) : List Nat :=
-  foldForce (fun p s => swapAdjL s p) obsL (List.range n) swaps
 
 theorem permAfterL_eq (n : Nat) (swaps : List Nat) :
     permAfterL n swaps = (certAfter n (Array.range n, 0) (swaps.map Elem.swap)).1.toList := by
@@ -115,10 +30,6 @@ theorem permAfterL_eq (n : Nat) (swaps : List Nat) :
       exact ih _ m
   have := this swaps (Array.range n) 0
   simpa [Array.toList_range] using this
-
-/-- every swap position is valid, the walk returns to the identity and is not empty -/
-def swapFactsB (n : Nat) (swaps : List Nat) : Bool :=
-  swaps.all (fun s => s + 1 < n) && !swaps.isEmpty && (permAfterL n swaps == List.range n)
 
 structure FlipFacts (n : Nat) (flips : List Nat) : Prop where
   valid : ∀ f ∈ flips, f < n
@@ -146,23 +57,43 @@ theorem swapFacts_of (n : Nat) (swaps : List Nat) (h : swapFactsB n swaps = true
   apply Array.ext'
   simpa [Array.toList_range] using this
 
+
+/-- the walk visits pairwise distinct permutations and has `len` steps -/
+structure SwapCover (n len : Nat) (swaps : List Nat) : Prop where
+  distinct : distinctPermsB n swaps = true
+  length : swaps.length = len
+
+/-- the Gray walk visits pairwise distinct masks and has 2^n steps -/
+structure FlipCover (n : Nat) (flips : List Nat) : Prop where
+  distinct : distinctMasksB flips = true
+  length : flips.length = 2 ^ n
+
+theorem swapAll_of (n len : Nat) (swaps : List Nat) (h : swapAllB n len swaps = true) :
+    SwapFacts n swaps ∧ SwapCover n len swaps := by
+  obtain ⟨h1, h2, h3⟩ := swapAllB_spec n len swaps h
+  exact ⟨swapFacts_of n swaps h1, ⟨h2, h3⟩⟩
+
+theorem flipAll_of (n : Nat) (flips : List Nat) (h : flipAllB n flips = true) :
+    FlipFacts n flips ∧ FlipCover n flips := by
+  unfold flipAllB at h
+  simp only [Bool.and_eq_true, beq_iff_eq] at h
+  exact ⟨flipFacts_of n flips h.1.1, ⟨h.1.2, h.2⟩⟩
+
+/-- n! for n <= 8 -/
+def factTable : List Nat := [1, 1, 2, 6, 24, 120, 720, 5040, 40320]
+
 /-- T1: the flip tables FLIPS[1..6] of the source -/
-theorem flips_table : ∀ n : Fin 7, 1 ≤ n.val → flipFactsB n.val ((FLIPS[n.val]?).getD []) = true := by
+theorem flips_table : ∀ n : Fin 7, 1 ≤ n.val → flipAllB n.val ((FLIPS[n.val]?).getD []) = true := by
   decide +kernel
 
 /-- T1: the swap tables SWAPS[2..6] of the source -/
-theorem swaps_table : ∀ n : Fin 7, 2 ≤ n.val → swapFactsB n.val ((SWAPS[n.val]?).getD []) = true := by
+theorem swaps_table : ∀ n : Fin 7, 2 ≤ n.val →
+    swapAllB n.val (factTable[n.val]?.getD 0) ((SWAPS[n.val]?).getD []) = true := by
   decide +kernel
 
-/-- the runtime generators, n = 7 -/
-theorem flips_gen7 : flipFactsB 7 (generateGrayFlips 7 true) = true := by decide +kernel
-
-set_option maxRecDepth 200000 in
-theorem swaps_gen7 : (match generateSwaps 7 true with | some sw => swapFactsB 7 sw | none => false) = true := by
-  decide +kernel
-
-/-- the sequences used for `n` variables satisfy the facts, n = 1..7 (flips) / 2..7 (swaps) -/
-theorem flipsFor_facts (n : Nat) (h1 : 1 ≤ n) (h7 : n ≤ 7) : ∃ fl, flipsFor n = some fl ∧ FlipFacts n fl := by
+/-- the sequences used for `n` variables satisfy the facts, n = 1..8 (flips) / 2..8 (swaps) -/
+theorem flipsFor_facts (n : Nat) (h1 : 1 ≤ n) (h8 : n ≤ 8) :
+    ∃ fl, flipsFor n = some fl ∧ FlipFacts n fl ∧ FlipCover n fl := by
   by_cases h6 : n ≤ 6
   · have hlt : n < FLIPS.size := by
       have : FLIPS.size = 7 := by decide
@@ -170,12 +101,16 @@ theorem flipsFor_facts (n : Nat) (h1 : 1 ≤ n) (h7 : n ≤ 7) : ∃ fl, flipsFo
     refine ⟨FLIPS[n], by simp [flipsFor, h6, hlt], ?_⟩
     have := flips_table ⟨n, by omega⟩ h1
     simp only [Array.getElem?_eq_getElem hlt, Option.getD_some] at this
-    exact flipFacts_of n _ this
-  · have : n = 7 := by omega
-    subst this
-    exact ⟨generateGrayFlips 7 true, by simp [flipsFor], flipFacts_of 7 _ flips_gen7⟩
+    exact flipAll_of n _ this
+  · by_cases h7 : n = 7
+    · subst h7
+      exact ⟨generateGrayFlips 7 true, by simp [flipsFor], flipAll_of 7 _ flips_gen7⟩
+    · have : n = 8 := by omega
+      subst this
+      exact ⟨generateGrayFlips 8 true, by simp [flipsFor], flipAll_of 8 _ flips_gen8⟩
 
-theorem swapsFor_facts (n : Nat) (h2 : 2 ≤ n) (h7 : n ≤ 7) : ∃ sw, swapsFor n = some sw ∧ SwapFacts n sw := by
+theorem swapsFor_facts (n : Nat) (h2 : 2 ≤ n) (h8 : n ≤ 8) :
+    ∃ sw, swapsFor n = some sw ∧ SwapFacts n sw ∧ SwapCover n (factTable[n]?.getD 0) sw := by
   by_cases h6 : n ≤ 6
   · have hlt : n < SWAPS.size := by
       have : SWAPS.size = 7 := by decide
@@ -183,14 +118,22 @@ theorem swapsFor_facts (n : Nat) (h2 : 2 ≤ n) (h7 : n ≤ 7) : ∃ sw, swapsFo
     refine ⟨SWAPS[n], by simp [swapsFor, h6, hlt], ?_⟩
     have := swaps_table ⟨n, by omega⟩ h2
     simp only [Array.getElem?_eq_getElem hlt, Option.getD_some] at this
-    exact swapFacts_of n _ this
-  · have : n = 7 := by omega
-    subst this
-    have g := swaps_gen7
-    match hg : generateSwaps 7 true with
-    | none => rw [hg] at g; cases g
-    | some sw =>
-      rw [hg] at g
-      exact ⟨sw, by simp [swapsFor, hg], swapFacts_of 7 sw g⟩
+    exact swapAll_of n _ _ this
+  · by_cases h7 : n = 7
+    · subst h7
+      have g := swaps_gen7
+      match hg : generateSwaps 7 true with
+      | none => rw [hg] at g; cases g
+      | some sw =>
+        rw [hg] at g
+        exact ⟨sw, by simp [swapsFor, hg], swapAll_of 7 _ sw g⟩
+    · have : n = 8 := by omega
+      subst this
+      have g := swaps_gen8
+      match hg : generateSwaps 8 true with
+      | none => rw [hg] at g; cases g
+      | some sw =>
+        rw [hg] at g
+        exact ⟨sw, by simp [swapsFor, hg], swapAll_of 8 _ sw g⟩
 
 end VoluteModel
